@@ -1115,9 +1115,16 @@ fn parse_op(w: &Watch, op: &str, bytes: &[u8]) -> String {
 
 // ------------------------------------------------------------------------------------------- replay / main
 
+/// `sv-c09x` (same source, `include!`d) executes every op on replay; `sv-c09` — whose traces are also compared with the
+/// model — answers `skipped` for the implementation-vs-implementation ops (`chunk`, `typed`), as the model does.
+fn is_full() -> bool {
+    std::env::args().next().map(|a| a.ends_with("sv-c09x")).unwrap_or(false)
+}
+
 fn exec(w: &Watch, t: &Tr, op: &str) {
     let parts: Vec<&str> = op.split_whitespace().collect();
     let out = match parts.as_slice() {
+        ["chunk", ..] | ["typed", ..] if !is_full() => "skipped".into(),
         ["print", s, e] => match vdec(e) {
             Some(v) => {
                 let st = s.chars().next().unwrap();
@@ -1173,7 +1180,7 @@ impl Tr {
     }
 }
 
-fn main() {
+pub fn main() {
     std::panic::set_hook(Box::new(|info| {
         if !IN_GUARD.load(Ordering::SeqCst) {
             eprintln!("harness panic: {}", info);
